@@ -14,7 +14,7 @@ CLAIMED = {
     "C02": ("encode/decode/copy/modify under contract for all integers and all carriable payloads; round-trip lemmas L1 (decode after encode) and L2 (canonical re-encoding, idempotent) discharged from the split/join/rstrip/int laws; copy for all 64 subsets of replaced fields.", "Trusted: the text laws (T-str); what is verified is the repository's glue: field order, payload position, integer conversion, terminator, copy's field handling.", TECH),
     "C04": ("Entry contract on Gateway.logic: after any accepted message the node/child/value tree equals the protocol meaning of that message (nodes appear only via presentation/id assignment, first child presentation wins, values/attributes hold the last report with fall-backs, all other nodes untouched), the event callback fires at most once, with the message's fields and the state at return, and exactly once whenever the persisted view changed; proved for every state with Inv, hence for every history.", _GW_NOTE, TECH),
     "C05": ("Entry contract on Gateway.logic and set_child_value: per message kind the returned line / the queued line / the jobs handed to the transport are exactly the prescribed ones (req, config, time, id request, gateway ready, unknown node/child, silence otherwise) and every returned line is canonical, decodes to a message valid for the version and is addressed to the inbound node or broadcast.", _GW_NOTE + " Clock: time.localtime is an uninterpreted input.", TECH),
-    "C06": ("_get_next_id / add_sensor / logic(id request): every id carried by an id response lies in 1..254, was unknown before and is reserved at once; no response when none is available; known nodes never disappear; the reservation is marked for saving (restart clause rests on C11/C14).", _GW_NOTE + " Restart step: assumed json/pickle round trip.", TECH),
+    "C06": ("_get_next_id / add_sensor / logic(id request): every id carried by an id response lies in 1..254, was unknown before and is reserved at once; no response when none is available; known nodes never disappear; the reservation is marked for saving; save_sensors' contract (a failed save leaves the state marked unsaved) for the restart clause, which otherwise rests on C11/C14.", _GW_NOTE + " Restart step: assumed json/pickle round trip.", TECH),
     "C07": ("Entry contracts on logic (2.0-2.2) and set_child_value: nothing returned for sending is addressed to a sleeping node (stream excepted), jobs reach the transport only in a wake-up burst or for a node that is awake, withheld lines are appended to the node's queue and queues only empty at that node's wake-up; awake nodes never get anything queued; I-queue (what is withheld for a node is addressed to it) and jobs-addressed: everything handed to the transport while a line is processed is a command for the sender of that line.", _GW_NOTE + " The pump-level 'burst directly follows' is the ordering obligation of C19 (known finding F8).", TECH),
     "C08": ("Loop invariants of the wake-up flush (decomposition form sent0++queue0 = sent++queue; one set command per due (child, value type) counted in ghost state), desired values kept until the node reports exactly that value type, value requests answered with the pending value (C05), and set_child_value refuses undeliverable values at call time (I-desired preserved).", _GW_NOTE, TECH),
     "C09": ("prepare_fw (padding loop invariant, blocks, CRC over the served data), fw_int_to_hex / fw_hex_to_int (little-endian 16-bit header, round-trip lemma), respond_fw (echo of type/version/index + the 16 bytes of the block, firmware untouched) and the induction step 'blocks concatenate to data' are discharged for images of symbolic length and content.", "Trusted: crcmod 'modbus' = CRC-16/MODBUS (T-crc, bounded audit), IntelHex loader (T-ihex, bounded audit only: the Intel-HEX clause is a bounded stand-in, not proved), struct/binascii laws.", TECH),
